@@ -50,7 +50,7 @@ Fixpoint descend (t : tree) (segs : list str) : option tree :=
               end
   end.
 
-Definition lookup (t : tree) (p : str) : option tree :=
+Definition tree_lookup (t : tree) (p : str) : option tree :=
   descend t (clean_segs (normalize_path p)).
 
 (* ---- sort.Strings / slices.Sort on the listed names, carrying what lstat will return for
@@ -118,7 +118,7 @@ Section Walk.
      [fixed = true]: the proposed patch — a final SkipDir is converted into nil, as filepath.Walk does *)
   Definition afero_walk_gen (fixed : bool) (t : tree) (root : str) (s : S) : S * action :=
     let '(s1, err) :=
-      match lookup t root with
+      match tree_lookup t root with
       | None => cb s (mkVisit root None (Some ENOENT))
       | Some n => afero_walk_node n root s
       end in
@@ -170,7 +170,7 @@ Section Walk.
        return err *)
   Definition std_walk (t : tree) (root : str) (s : S) : S * action :=
     let '(s1, err) :=
-      match lookup t root with
+      match tree_lookup t root with
       | None => cb s (mkVisit root None (Some ENOENT))
       | Some n => std_walk_node n root s
       end in
